@@ -27,6 +27,9 @@ type Linter struct {
 
 	// modules whose include statements are being resolved right now (cycle detection)
 	includeChain []string
+	// include chain of statements that came out of a module included inside a subroutine body:
+	// the chain is in force again while such a statement (e.g. an if block with further includes) is linted
+	includedBy map[ast.Statement][]string
 
 	// local variable declarations covered by an ignore comment for the unused/variable rule.
 	// The rule is reported after the subroutine has been linted, the ignore comments are out of scope by then
@@ -39,6 +42,7 @@ func New(c *config.LinterConfig, opts ...optionFunc) *Linter {
 		ignore: &ignore{},
 
 		ignoredUnusedVariables: make(map[*ast.Meta]bool),
+		includedBy:             make(map[ast.Statement][]string),
 		conf:                   c,
 	}
 	for i := range opts {
@@ -499,7 +503,17 @@ func (l *Linter) resolveFileInclusion(
 	} else {
 		statements = l.loadSnippetVCL(module.Name, module.Data)
 	}
-	return l.resolveIncludeStatements(statements, ctx, isRoot)
+	resolved := l.resolveIncludeStatements(statements, ctx, isRoot)
+	if !isRoot {
+		// Includes nested in the blocks of these statements are resolved later, while the block is linted
+		chain := append([]string{}, l.includeChain...)
+		for _, s := range resolved {
+			if _, ok := l.includedBy[s]; !ok {
+				l.includedBy[s] = chain
+			}
+		}
+	}
+	return resolved
 }
 
 //nolint:gocognit,funlen
